@@ -17,7 +17,14 @@ type stateWatcher struct {
 	doneA    chan struct{}
 	doneB    chan struct{}
 	bStarted chan struct{}
+	// a burst of subscribers joining at staggered instants while the runnable goes through its first
+	// transitions: each must see the state current at its subscription and then every later change
+	sx      [][]string
+	cancelX []context.CancelFunc
+	doneX   []chan struct{}
 }
+
+const burstSubscribers = 24
 
 func watchStates(getChan func(context.Context) <-chan string, lateAfter time.Duration) *stateWatcher {
 	w := &stateWatcher{doneA: make(chan struct{}), doneB: make(chan struct{}), bStarted: make(chan struct{})}
@@ -32,6 +39,27 @@ func watchStates(getChan func(context.Context) <-chan string, lateAfter time.Dur
 		}
 		close(w.doneA)
 	}()
+	w.sx = make([][]string, burstSubscribers)
+	for k := 0; k < burstSubscribers; k++ {
+		c, cf := context.WithCancel(context.Background())
+		d := make(chan struct{})
+		w.cancelX = append(w.cancelX, cf)
+		w.doneX = append(w.doneX, d)
+		go func(k int) {
+			defer close(d)
+			t := time.NewTimer(time.Duration(k*35) * time.Microsecond)
+			select {
+			case <-t.C:
+			case <-c.Done():
+				return
+			}
+			for s := range getChan(c) {
+				w.mu.Lock()
+				w.sx[k] = append(w.sx[k], s)
+				w.mu.Unlock()
+			}
+		}(k)
+	}
 	ctxB, cb := context.WithCancel(context.Background())
 	w.cancelB = cb
 	go func() {
@@ -59,8 +87,11 @@ func (w *stateWatcher) finish() (ss, sb string, closed bool) {
 	time.Sleep(5 * time.Millisecond) // let the last broadcast arrive
 	w.cancelA()
 	w.cancelB()
+	for _, c := range w.cancelX {
+		c()
+	}
 	closed = true
-	for _, d := range []chan struct{}{w.doneA, w.doneB} {
+	for _, d := range append([]chan struct{}{w.doneA, w.doneB}, w.doneX...) {
 		select {
 		case <-d:
 		case <-time.After(2 * time.Second):
@@ -84,7 +115,22 @@ func streamLine(w *stateWatcher, ret string, single bool) string {
 	if ret == "" {
 		ret = "none"
 	}
-	return "c08streamholds ss=" + ss + " sb=" + sb + " ret=" + ret + " closed=" + itoa(c) + " single=" + itoa(s)
+	w.mu.Lock()
+	seen := map[string]bool{}
+	var xs []string
+	for _, x := range w.sx {
+		j := strings.Join(x, ">")
+		if j != "" && !seen[j] {
+			seen[j] = true
+			xs = append(xs, j)
+		}
+	}
+	w.mu.Unlock()
+	sx := "none"
+	if len(xs) > 0 {
+		sx = strings.Join(xs, "|")
+	}
+	return "c08streamholds ss=" + ss + " sb=" + sb + " sx=" + sx + " ret=" + ret + " closed=" + itoa(c) + " single=" + itoa(s)
 }
 
 func itoa(i int) string {
